@@ -2,8 +2,9 @@
 // string field carries hostile payloads; the output is tokenised with
 // golang.org/x/net/html.
 // html id mode ver values | attrs skeleton scheme complete err
-//   values = (bs ...) buckets for mode agg, (gs ...) goroutines for mode snap
-//   attrs  = the href / class values of the content region, in document order (hex, comma separated)
+//
+//	values = (bs ...) buckets for mode agg, (gs ...) goroutines for mode snap
+//	attrs  = the href / class values of the content region, in document order (hex, comma separated)
 package main
 
 import (
@@ -289,6 +290,23 @@ func emitHTML(id string, gs []*stack.Goroutine, mode string) {
 		}
 		tdoc = buf.Bytes()
 	}()
+	// determinism (C06): rendering again gives the same bytes apart from the creation time
+	mask := func(b []byte) string {
+		s := string(b)
+		if i := strings.Index(s, "<li>Created on "); i >= 0 {
+			if j := strings.Index(s[i:], "</li>"); j >= 0 {
+				s = s[:i] + s[i+j:]
+			}
+		}
+		return s
+	}
+	det := "1"
+	for k := 0; k < 3; k++ {
+		d2, _, _ := renderHTML(deepCopyGoroutines(gs), mode, lvl)
+		if mask(d2) != mask(doc) {
+			det = "0"
+		}
+	}
 	ti, tt := tokenize(doc), tokenize(tdoc)
 	skel := "1"
 	if strings.Join(ti.skeleton, "|") != strings.Join(tt.skeleton, "|") || errs != terr {
@@ -337,7 +355,7 @@ func emitHTML(id string, gs []*stack.Goroutine, mode string) {
 	if errs == "" {
 		errs = "-"
 	}
-	emit("html", id, mode, hexs([]byte(runtime.Version())), values, ats, skel, scheme, complete, errs)
+	emit("html", id, mode, hexs([]byte(runtime.Version())), values, ats, skel, scheme, complete, errs, det)
 }
 
 func opHTML(r *rand.Rand, n int, tier string) {
